@@ -470,8 +470,8 @@ class Tensor:
         return F.slice(self, key)
     
     def __iter__(self):
-        self._current_idx = 0
-        return self
+        for idx in range(len(self)):
+            yield self[idx]
     
     def __next__(self) -> 'Tensor':
         if self._current_idx >= len(self):
